@@ -190,12 +190,12 @@ func runCaseA(t vh.TB, c *CaseA) vh.Outcome {
 		r.delays[toks[i]] = c.BackendMs[i%len(c.BackendMs)]
 		r.mu.Unlock()
 	}
-	r.fp.FetchHook = func(q *vh.FPRequest, w http.ResponseWriter, rq *http.Request) bool {
+	r.fp.SetFetchHook(func(q *vh.FPRequest, w http.ResponseWriter, rq *http.Request) bool {
 		if d := fetchDelay[q.ID]; d > 0 {
 			time.Sleep(time.Duration(d) * time.Millisecond)
 		}
 		return false
-	}
+	})
 	faulty := map[string]bool{}
 	for _, ix := range c.FailUploads {
 		if ix >= 0 && ix < c.N {
@@ -204,7 +204,7 @@ func runCaseA(t vh.TB, c *CaseA) vh.Outcome {
 	}
 	var fmu sync.Mutex
 	droppedUploads := map[string]int{}
-	r.fp.UploadHook = func(q *vh.FPRequest, w http.ResponseWriter, rq *http.Request) bool {
+	r.fp.SetUploadHook(func(q *vh.FPRequest, w http.ResponseWriter, rq *http.Request) bool {
 		if d := uploadDelay[q.ID]; d > 0 {
 			time.Sleep(time.Duration(d) * time.Millisecond)
 		}
@@ -223,7 +223,7 @@ func runCaseA(t vh.TB, c *CaseA) vh.Outcome {
 			}
 		}
 		return false
-	}
+	})
 	listed := make([]int, c.N)
 	for ri, rep := range c.Replies {
 		var out []string
@@ -666,7 +666,7 @@ func TestReplay(t *testing.T) {
 		t.Fatalf("INFRA: %v", err)
 	} else if ok {
 		for i := 0; i < vh.ReplayRuns(); i++ {
-			recA.Check(t, &a, func() vh.Outcome { return runCaseA(t, &a) })
+			recA.Check(t, &a, func() vh.Outcome { return vh.Confirm(func(int) vh.Outcome { return runCaseA(t, &a) }) })
 		}
 		return
 	}
